@@ -160,13 +160,14 @@ def check_C_view(S, p):
         r1 = run(["-m", ",".join(map(str, remove))])
         r2 = run(["-M", ",".join(map(str, keep))])
         S.count("C_runs", 2)
+        from .. import replay as R
         wit = {"level": "C", "shape": shape, "data": data, "remove": remove, "keep": keep, "input_b64": E.b64(inp), "r1": r1.brief(), "r2": r2.brief()}
         eshape, edata = O.marginalize(shape, [int(x) for x in data], remove)
         exp = GS.text_spectrum(eshape, edata, 6)
         if r1.rc != 0 or r1.out != exp:
-            S.viol("C04:cli-value", "[C view -m %r on %r] rc %s stdout %r expected %r" % (remove, shape, r1.rc, r1.out[:200], exp[:200]), wit)
+            S.viol("C04:cli-value", "[C view -m %r on %r] rc %s stdout %r expected %r" % (remove, shape, r1.rc, r1.out[:200], exp[:200]), dict(wit, replay=R.exact(r1, exp)))
         if r2.rc != r1.rc or r2.out != r1.out:
-            S.viol("C04:keep-vs-remove", "[C shape %r] -M %r differs from -m %r: %r vs %r" % (shape, keep, remove, r2.out[:200], r1.out[:200]), wit)
+            S.viol("C04:keep-vs-remove", "[C shape %r] -M %r differs from -m %r: %r vs %r" % (shape, keep, remove, r2.out[:200], r1.out[:200]), dict(wit, replay=R.same(r1, r2)))
         S.case(key=digest([shape, data, remove, "C"]), nontrivial=any(shape[a] > 1 for a in remove) and len(set(data)) > 1)
         if i == 0 and p.get("i") == 1:
             S.sample({"level": "C", "argv": r1.argv, "stdout": r1.out.decode()[:200], "keep_form_argv": r2.argv})
@@ -180,7 +181,8 @@ def check_C_view(S, p):
         S.count("C_runs")
         S.count("C_error_requests")
         if r.rc == 0 or r.out:
-            S.viol("C04:cli-invalid-accepted", "[C view %r on shape %r] rc %s stdout %r" % (args, shape, r.rc, r.out[:100]), {"level": "C", "argv": r.argv, "input_b64": E.b64(inp)})
+            from .. import replay as R
+            S.viol("C04:cli-invalid-accepted", "[C view %r on shape %r] rc %s stdout %r" % (args, shape, r.rc, r.out[:100]), {"level": "C", "argv": r.argv, "input_b64": E.b64(inp), "replay": R.reject(r)})
 
 
 def check_C_create(S, p):
@@ -206,7 +208,8 @@ def check_C_create(S, p):
         if a.rc or b.rc or c.rc or b.out != c.out:
             S.viol("C04:create-marginalize", "[C create|view -m %r] differs from create on the remaining populations: %r vs %r (rc %s %s %s)" % (
                 remove, b.out[:200], c.out[:200], a.rc, b.rc, c.rc),
-                {"level": "C", "vcf": cs.to_vcf().decode()[:20000], "map": smap, "remove": remove, "a": a.brief(), "b": b.brief(), "c": c.brief()})
+                {"level": "C", "vcf": cs.to_vcf().decode()[:20000], "map": smap, "remove": remove, "a": a.brief(), "b": b.brief(), "c": c.brief(),
+                 "replay": __import__("vf.replay", fromlist=["x"]).pipeline_same([a, b], [c])})
         S.case(key=digest([E.codes(cs), smap, remove]), nontrivial=len(cs.records) >= 2)
 
 
